@@ -18,6 +18,10 @@ fn decode32(v: u32) -> Vec<u8> {
 }
 
 pub fn raw_language(l: Language, case: &dyn Fn() -> Value, st: &mut Stats) {
+    // a panic inside the conversions (an overflowing shift in from_raw_unchecked ...) is a failure of this case
+    netted(st, || case(), 1, |st| raw_language_inner(l, case, st));
+}
+fn raw_language_inner(l: Language, case: &dyn Fn() -> Value, st: &mut Stats) {
     let v: Option<u64> = l.into();
     let v2: Option<u64> = (&l).into();
     if v != v2 {
@@ -44,6 +48,10 @@ pub fn raw_language(l: Language, case: &dyn Fn() -> Value, st: &mut Stats) {
     }
 }
 pub fn raw_script(s: Script, case: &dyn Fn() -> Value, st: &mut Stats) {
+    // a panic inside the conversions (an overflowing shift in from_raw_unchecked ...) is a failure of this case
+    netted(st, || case(), 1, |st| raw_script_inner(s, case, st));
+}
+fn raw_script_inner(s: Script, case: &dyn Fn() -> Value, st: &mut Stats) {
     let x: u32 = s.into();
     if decode32(x) != s.as_str().as_bytes() {
         st.fail("raw:script:integer-does-not-decode-to-text", case(), 1, format!("{x} vs {:?}", s.as_str()));
@@ -54,6 +62,10 @@ pub fn raw_script(s: Script, case: &dyn Fn() -> Value, st: &mut Stats) {
     }
 }
 pub fn raw_region(s: Region, case: &dyn Fn() -> Value, st: &mut Stats) {
+    // a panic inside the conversions (an overflowing shift in from_raw_unchecked ...) is a failure of this case
+    netted(st, || case(), 1, |st| raw_region_inner(s, case, st));
+}
+fn raw_region_inner(s: Region, case: &dyn Fn() -> Value, st: &mut Stats) {
     let x: u32 = s.into();
     if decode32(x) != s.as_str().as_bytes() {
         st.fail("raw:region:integer-does-not-decode-to-text", case(), 1, format!("{x} vs {:?}", s.as_str()));
@@ -64,6 +76,10 @@ pub fn raw_region(s: Region, case: &dyn Fn() -> Value, st: &mut Stats) {
     }
 }
 pub fn raw_variant(s: Variant, case: &dyn Fn() -> Value, st: &mut Stats) {
+    // a panic inside the conversions (an overflowing shift in from_raw_unchecked ...) is a failure of this case
+    netted(st, || case(), 1, |st| raw_variant_inner(s, case, st));
+}
+fn raw_variant_inner(s: Variant, case: &dyn Fn() -> Value, st: &mut Stats) {
     let x: u64 = s.into();
     let x2: u64 = (&s).into();
     if x != x2 {
